@@ -42,6 +42,20 @@ func (sf ScrubFields) Set(path []string, typename, fieldname string) {
 	sf[key][typename] = lo.Uniq(append(sf[key][typename], fieldname))
 }
 
+// Unset removes fieldname from all types on provided path
+func (sf ScrubFields) Unset(path []string, fieldname string) {
+	key := sf.hash(path)
+	for typename, fields := range sf[key] {
+		sf[key][typename] = lo.Without(fields, fieldname)
+		if len(sf[key][typename]) == 0 {
+			delete(sf[key], typename)
+		}
+	}
+	if len(sf[key]) == 0 {
+		delete(sf, key)
+	}
+}
+
 func (sf ScrubFields) Get(path []string, typename string) []string {
 	key := sf.hash(path)
 	if sf[key] == nil {
